@@ -256,7 +256,9 @@ def userPending (w : World) : List Nat :=
   (w.ev.pending.filter fun e => e.item.a = aUser).map (·.key)
 
 /-- `cmb_event_pattern_cancel(user_action, ANY, ANY)`: every match is cancelled through `cmb_event_cancel`,
-    so the waiters of each cancelled event are woken with CANCELLED; returns the number of matches -/
+    so the waiters of each cancelled event are woken with CANCELLED; returns the number of matches.
+    The library cancels in heap-array order, which the abstract queue does not have (here: list order, as in
+    `cancelAllFor`); the order only decides which waiter gets which of the new handles (notes/S5.md) -/
 def cancelUserAll (w : World) : World × Nat :=
   let hs := userPending w
   (hs.foldl (fun w h => (evCancel w h).1) w, hs.length)
